@@ -45,7 +45,7 @@ TRoute ==
     /\ Ev("route") /\ UNCHANGED << nxt, done, seen, cur >>
     /\ LET e == Rec[l]
        IN  IF e.value \in Codes
-           THEN IF e.kind = "header" THEN e.res = "ok" /\ e.code = e.value
+           THEN IF e.kind \in {"header", "shxheader"} THEN e.res = "ok" /\ e.code = e.value
                 \* a record of another layout may fail otherwise, never as an invalid type
                 ELSE e.res \notin {"invalid_type", "panic"}
            ELSE e.res = "invalid_type" /\ e.code = e.value
